@@ -285,7 +285,14 @@ bool Instance::eval(const size_t argc, char* const* argv) {
         if (!(vlen & 1)) {
             std::vector<unsigned char> pushData;
             if (TryHex(v, pushData)) {
-                script << pushData;
+                // push in minimal form: a plain 1-byte push of 0x01..0x10 / 0x81 is rejected by MINIMALDATA
+                if (pushData.size() == 1 && pushData[0] >= 1 && pushData[0] <= 16) {
+                    script << (opcodetype)(OP_1 + pushData[0] - 1);
+                } else if (pushData.size() == 1 && pushData[0] == 0x81) {
+                    script << OP_1NEGATE;
+                } else {
+                    script << pushData;
+                }
                 continue;
             }
         }
